@@ -47,7 +47,9 @@ YK_HARNESS H_perm_insert() {
     yk_assume(pos < 15);
     yk_assume(((used_mask(b) >> pos) & 1U) == 0); // pos is a free slot (what get_empty_slot promises)
     permutation p{b};
+    yk_watch(&p);
     p.insert_rank(rank, pos);
+    YK_ASSERT(yk_watch_store_count() == 1); // published as ONE store of the word: a reader sees old or new
     std::uint64_t w = p.get_body();
     YK_ASSERT((w & 15U) == n + 1);
     for (unsigned i = 0; i < 15; ++i) {
@@ -75,7 +77,9 @@ YK_HARNESS H_perm_delete() {
     std::uint64_t rank = yk_nondet_u64();
     yk_assume(rank < n);
     permutation p{b};
+    yk_watch(&p);
     p.delete_rank(rank);
+    YK_ASSERT(yk_watch_store_count() == 1);
     std::uint64_t w = p.get_body();
     YK_ASSERT((w & 15U) == n - 1);
     for (unsigned i = 0; i < 15; ++i) {
@@ -100,7 +104,9 @@ YK_HARNESS H_perm_empty() {
     for (unsigned i = 0; i < 15; ++i)
         if (i < n) yk_assume(slot_at(b, i) != f);
     permutation p{b};
+    yk_watch(&p);
     std::size_t es = p.get_empty_slot();
+    YK_ASSERT(yk_watch_store_count() == 0 && yk_watch_load_count() == 1); // one snapshot of the word, no write
     YK_ASSERT(es < 15);
     YK_ASSERT(((used_mask(b) >> es) & 1U) == 0);
     for (unsigned i = 0; i < 15; ++i)
@@ -116,7 +122,9 @@ YK_HARNESS H_perm_split_dest() {
     std::uint64_t num = yk_nondet_u64();
     yk_assume(num <= 15);
     permutation p{junk};
+    yk_watch(&p);
     p.split_dest(num);
+    YK_ASSERT(yk_watch_store_count() == 1);
     std::uint64_t w = p.get_body();
     YK_ASSERT((w & 15U) == num);
     for (unsigned i = 0; i < 15; ++i)
@@ -133,7 +141,9 @@ YK_HARNESS H_perm_set_cnk_init() {
     std::uint8_t c = yk_nondet_u8();
     yk_assume(c <= 15);
     permutation p{b};
+    yk_watch(&p);
     p.set_cnk(c);
+    YK_ASSERT(yk_watch_store_count() == 1);
     YK_ASSERT(p.get_body() == ((b & ~15ULL) | c));
     p.init();
     YK_ASSERT(p.get_body() == 0);
